@@ -6,7 +6,8 @@ are outside the claim.
 """
 ID = 'C16'
 FUNCTIONS = [('devices', 'FBG'), ('utils', 'rcos')]
-BOUNDS = {'frequency bins': 'input length N = 4 (thorough: also 2, 3, 5, 8 for the clauses after the ODE; exact DFT), one and two polarisations',
+BOUNDS = {'call-history differential': 'for the blocks of this property registered in vf/history.py (concrete orders / bandwidths / gains / gv configurations, symbolic samples): the call repeated in a session that first ran it with one parameter or one gv setting changed equals the call in a fresh library instance',
+          'frequency bins': 'input length N = 4 (thorough: also 2, 3, 5, 8 for the clauses after the ODE; exact DFT), one and two polarisations',
           'parameters': 'fc (or landa_D), kL / L / N-periods, vdneff (or dneff), neff, v, chirp F: symbolic reals; the four built-in apodisations '
                         'and a user callable',
           'stubs': 'solve_ivp returns an arbitrary complex state (R, S); tau_g / dispersion / find_peaks / peak_widths / si (printed summary and the '
@@ -273,4 +274,6 @@ def configs(tier):
         for N in (2, 3):
             out.append((f'after-ode-pol2-N{N}', scen_after, dict(pol=2, N=N), {'validate': 2}))
             out.append((f'after-ode-energy-pol1-N{N}', scen_after, dict(pol=1, N=N, energy=True), {'validate': 2}))
+    from vf import history as _history        # call-history differential (vf/history.py)
+    out += _history.configs_for('C16')
     return out
